@@ -321,6 +321,7 @@ Fails(e) == (IF IsOpEvent(e) THEN FaultFails(e) ELSE {}) \cup
     [] e.e = "BMap" -> BMapFails(e)
     [] e.e = "Verify" -> VerifyFails(e)
     [] e.e = "Generate" -> GenerateFails(e)
+    [] e.e = "Thread" -> IF On("C18") THEN F(e.seq = e.par, "C18.results") ELSE {}
     [] e.e = "Codec" -> CodecFails(e)
     [] e.e = "CodecBatch" -> CodecBatchFails(e)
     [] e.e = "EndCase" -> IF Has(e, "leak") /\ Prop \in LeakProps THEN F(e.leak = 0, Prop \o ".leak") ELSE {}
